@@ -554,7 +554,8 @@ def r18_6(ctx):
 
 
 _METRIC_REF = "(((512 + (q0 + e0) // 2) * (q0 - e0) * (q0 - e0)) >> 8) + 4 * (q1 - e1) * (q1 - e1) + (((767 - (q0 + e0) // 2) * (q2 - e2) * (q2 - e2)) >> 8)"
-_MONOTONE = ("sqrt", "_sqrt", "math.sqrt", "isqrt", "math.isqrt")
+_MONOTONE = ("sqrt", "math.sqrt")  # STRICTLY increasing on the non-negative integers met here
+_COARSE = ("isqrt", "math.isqrt", "int", "round", "floor", "math.floor", "ceil", "math.ceil")  # non-decreasing only: they create ties
 
 
 def r18_8(ctx):
@@ -604,7 +605,16 @@ def r18_8(ctx):
     k, q_names, e_names, ret = cands[0]
     sd = {a: b for a, b in _sdf(k).items() if a not in e_names and a not in q_names}
     expr = _inl(ret.value, sd)
-    while isinstance(expr, ast.Call) and norm(expr.func) in _MONOTONE and len(expr.args) == 1 and not expr.keywords:
+    from ..astutil import alias_map as _am188, expand_alias as _ea188
+    al188 = dict(_am188(f.node))
+    al188.update(_am188(k))
+
+    def fname(e):
+        return norm(_ea188(e.func, al188)) if isinstance(e.func, ast.Name) else norm(e.func)
+    while isinstance(expr, ast.Call) and len(expr.args) == 1 and not expr.keywords and fname(expr) in _MONOTONE + _COARSE:
+        if fname(expr) in _COARSE:
+            ctx.violation(f.fq, short(ret), f"{m.relpath}:{ret.lineno}", f"the distance is passed through `{fname(expr)}`, which is non-decreasing but not strictly increasing: palette entries at different distances get the same value, and min() then keeps the one with the lower index even when it is farther away - for some colours downgrade() does not return the nearest entry (a strictly increasing function such as sqrt, or no function at all, keeps the order)")
+            return
         expr = _inl(expr.args[0], sd)
     env = {}
     for i in range(3):
